@@ -17,7 +17,7 @@ RT_TB = [
     "modelled, differentially validated: ParseRealtime (extension pre-pass, merge loop, link resolution, sorts), parseAlert, extensions/nycttrips, extensions/nyctalerts as Gtfs.Rt.* (hand-written Lean model over the decoded FeedMessage; compared on every generated message, all fields, through the public API)",
     "model boundary: protobuf-go Unmarshal / HasExtension / GetExtension (trusted; the harness builds messages with proto.Marshal and feeds the bytes to ParseRealtime)",
     "regexp on the fixed patterns startTimeRegex, startDateRegex, TripIDRegex, elevatorAlertIDRegex: hand-written matchers, the pattern texts are regenerated from the source and pinned by theorems, the matchers are differentially validated",
-    "time.Date / time.Unix / Location: a date is its civil day number (Gtfs.Civil, Hinnant's algorithm with time.Date's normalisation), an instant its Unix seconds; the zone a result is expressed in is observed on the implementation by the canonicaliser (named zones with dates 1990-2034, no transition at local midnight)",
+    "time.Date / time.Unix / Location: a date is its civil day number (Gtfs.Civil, Hinnant's algorithm with time.Date's normalisation), an instant its Unix seconds; the instant at which a date is surfaced is Gtfs.Zone.dateUnix, which follows the code of time.Date (go1.23: two look-ups) over the zone's transition table; the table is exported from the implementation's own zone database by walking Time.ZoneBounds (tz database, LoadLocation and ZoneBounds trusted; table range 1980-2045, dates outside it carry no instant on either side) and the model's instant is compared with .Unix() of the real value for every date of every case; that the result carries the configured *time.Location is observed on the implementation by the canonicaliser",
     "Go maps as association lists; sort.Slice as List.mergeSort (keys are distinct where the output is claimed); strconv.Atoi without overflow; encoding/json of the NYCT metadata is opaque (marker text)",
     "enum decoders, enum numbers and NYCT tables are regenerated from the source (Gen.Enums, Gen.NyctTables)",
 ]
@@ -27,7 +27,7 @@ ST_TB = [
     "modelled, differentially validated: encoding/csv as csv.New configures it plus the UTF-8 BOM removal, as the byte-level fold Gtfs.Csv (UTF-16 byte-order marks and invalid UTF-8 after a BOM are outside the model)",
     "model boundary: archive/zip and compress/flate (trusted; the harness wraps the members into a zip, store or deflate)",
     "parameters of the model (library calls, computed by the harness for every cell of the case): parseFloat64 = TrimSpace + strconv.ParseFloat (the harness's replica is the reading 'decimal numbers exactly'; strconv trusted), time.LoadLocation (zone database trusted)",
-    "a date is its civil day number (Gtfs.Civil); that it is the start of that day in the reported zone is observed on the implementation by the canonicaliser",
+    "a date is its civil day number (Gtfs.Civil); the instant at which it is surfaced is Gtfs.Zone.dateUnix (time.Date's code over the transition table of the feed's zone, exported from the implementation's zone database by walking Time.ZoneBounds, range 1980-2045), compared with .Unix() of every start, end, added and removed date; that each date carries the reported location and reads 00:00:00 there is additionally observed by the canonicaliser",
     "references are indices; the Go canonicaliser computes them by pointer identity and reports a pointer that is not an element of the result's own collection",
     "column names/required flags, ReadOr defaults, the file table, enum decoders and constants are regenerated from the source (Gen.Columns, Gen.FileTable, Gen.Enums)",
     "Go maps as association lists (last insertion wins); sort.Slice as List.mergeSort (claimed only for distinct keys); strconv.Atoi/ParseInt; int overflow inside parseGtfsTimeToDuration is not modelled",
@@ -86,7 +86,8 @@ PROPS = {
     "C11": {
         "module": "GtfsVerif.Props.C11",
         "trusted_base": ST_TB,
-        "partial": ["loading the zone is trusted (the harness tells the model which zone names resolve)"],
+        "partial": ["loading the zone is trusted (the harness tells the model which zone names resolve and hands it the zone's transition table, exported from the implementation's tz database)",
+                    "'start of that day in the zone' is proved for fixed offsets unconditionally and for zones with transitions under the decidable condition Zone.Settled (C11_date_midnight, C11_date_midnight_quiet)"],
         "assumptions": [],
     },
     "C18": {
@@ -100,7 +101,7 @@ PROPS = {
         "module": "GtfsVerif.Props.C02",
         "trusted_base": RT_TB,
         "partial": ["'exactly one Trip per distinct descriptor / one Vehicle per distinct vehicle' is proved on the model for conflict-free messages (C02_trips_exact, C02_vehicles_exact: present iff mentioned, once, with the own entity's data or the bare identifier; id-less vehicles one per id-less mention in feed order); that the surfaced Trip.Vehicle / Vehicle.Trip pointers agree with these entries is C04's part",
-                    "'local midnight in a DST zone' is observed on the implementation (canonicaliser: every start date must read 00:00:00 in the configured location); the Lean theorem is about the civil day number"],
+                    "'local midnight' is proved for every fixed offset unconditionally and for zones with transitions under the decidable condition Zone.Settled (time.Date's second guess is consistent; guaranteed when no transition lies in the window its look-ups reach: C02_start_date_midnight_quiet); where the wall clock skips midnight (Havana-style transitions at 00:00) no instant reads midnight and time.Date's answer, which the model reproduces, is outside the statement; the zone table itself comes from the implementation's tz database (trusted)"],
         "assumptions": ["protobuf required fields are present after Unmarshal (header, entity id, trip of a trip update)"],
     },
     "C04": {
@@ -207,7 +208,7 @@ MANIFEST_TEXT = {
         "technique": "Lean 4 proof (decide over regenerated defaults, fold-scope lemma) + three-spellings correspondence",
     },
     "C11": {
-        "text": "Theorems: the service table keeps distinct keys, each entry under its own id, and start <= every added/removed date <= end after any sequence of calendar and exception rows (invariant by induction over both folds); one Service per id ordered by id; a calendar row sets flags and range, exception rows append in file order and extend the range, unknown types change nothing; zone rule. The oracle recomputes the expected services from the generated rows.",
+        "text": "Theorems: the service table keeps distinct keys, each entry under its own id, and start <= every added/removed date <= end after any sequence of calendar and exception rows (invariant by induction over both folds); one Service per id ordered by id; a calendar row sets flags and range, exception rows append in file order and extend the range, unknown types change nothing; zone rule; the instant of every date is time.Date's over the zone's transition table (closed form of its two look-ups), reads local midnight (fixed offsets: always; transitions: when the second guess is consistent), and the range covers the exception dates as instants too. The oracle recomputes the expected services from the generated rows.",
         "note": "Trusted: Lean kernel, harness, tz database.",
         "technique": "Lean 4 proof (table invariant by induction over rows) + generator-truth correspondence",
     },
@@ -217,8 +218,8 @@ MANIFEST_TEXT = {
         "technique": "Lean 4 interleaving lemma + inventory theorem over regenerated shared writes + Go race detector run",
     },
     "C02": {
-        "text": "Theorems over the realtime model for all decoded messages: timestamps are the same instant (identity below 2^63, two's complement above), delay/time/uncertainty and every optional vehicle field carried over with absent staying absent, HH:MM:SS to seconds for all two-digit triples, YYYYMMDD to the civil day (normalisation is the identity on valid dates), direction and enum decoders over the regenerated tables, one Alert per non-skipped alert entity in feed order (closed form of the merge loop), regex texts pinned. The model is compared field by field with ParseRealtime on generated conflict-free messages in 8 zones and the oracle compares the result with the wire values.",
-        "note": "Trusted: Lean kernel, protobuf-go, time package (zone presentation observed, not proved), harness. 'One Trip per distinct descriptor, one Vehicle per distinct vehicle' is C02_trips_exact / C02_vehicles_exact.",
+        "text": "Theorems over the realtime model for all decoded messages: timestamps are the same instant (identity below 2^63, two's complement above), delay/time/uncertainty and every optional vehicle field carried over with absent staying absent, HH:MM:SS to seconds for all two-digit triples, YYYYMMDD to the civil day (normalisation is the identity on valid dates) surfaced at time.Date's instant over the configured zone's transition table (closed form of the two look-ups; local midnight for fixed offsets always and for zones with transitions whenever the second guess is consistent; instants ordered like days), direction and enum decoders over the regenerated tables, one Alert per non-skipped alert entity in feed order (closed form of the merge loop), regex texts pinned. The model is compared field by field with ParseRealtime on generated conflict-free messages in 8 zones and the oracle compares the result with the wire values.",
+        "note": "Trusted: Lean kernel, protobuf-go, tz database and Time.ZoneBounds (the zone table is exported from them; time.Date's algorithm over the table is modelled and compared on every date), harness. 'One Trip per distinct descriptor, one Vehicle per distinct vehicle' is C02_trips_exact / C02_vehicles_exact.",
         "technique": "Lean 4 proof over a model of ParseRealtime + differential correspondence and wire-truth oracle",
     },
     "C04": {
